@@ -3,6 +3,7 @@
    critical section of client.go; a schedule is an arbitrary event list (disabled events are no-ops). *)
 From Coq Require Import List NArith Arith Bool.
 From RPCX Require Import Client.ClientSM Client.ClientProofs.
+From RPCX Require Client.Pending Client.PendingSeq Client.PendingGenProofs.
 Import ListNotations.
 
 (* For every set of calls (Go, Call, SendRaw, heartbeats are ordinary calls), every schedule - hence
@@ -43,7 +44,26 @@ Example C03_nonvacuous :
   map (fun x => map snd (c_signals x)) (calls st) = [[ROk 70]; [ROk 71]; [ROk 72]] /\ pushes st = [11].
 Proof. vm_compute. split; reflexivity. Qed.
 
+(* The sequence numbers themselves, at the granularity of single statements and about the code as it is now (the paths
+   of send, call, input and Close regenerated from client/client.go on every run, tools/gopending2v): send reads its
+   number from client.seq and advances the counter within the critical section that registers the call under it, and
+   nothing else writes the counter.  Hence, under ANY interleaving of any number of goroutines running these paths
+   (SendRaw, which registers under a caller-chosen number, apart): no table entry is ever overwritten - a registered
+   call keeps its own number until somebody takes it out - and every number in the table is below the counter, so
+   a number is never handed out while a call is registered under it. *)
+Theorem C03_a_registered_call_keeps_its_number_to_itself : forall progs sched,
+  (forall t, PendingGenProofs.runs_of PendingGenProofs.strict_paths (progs t)) ->
+  let w := PendingSeq.run2 sched (PendingSeq.start2 progs) in
+  PendingSeq.clob w = false /\
+  (forall key c, Pending.lookup (Pending.pend (PendingSeq.base w)) key = Some c -> key < PendingSeq.ctr w).
+Proof.
+  intros progs sched Hp.
+  exact (conj (proj1 (PendingGenProofs.client_goroutines_never_overwrite progs sched Hp))
+              (proj2 (proj2 (proj2 (PendingGenProofs.client_goroutines_never_overwrite progs sched Hp))))).
+Qed.
+
 Print Assumptions C03_completed_by_own_response.
 Print Assumptions C03_strays_and_pushes_are_inert.
 Print Assumptions C03_pushes_in_order.
 Print Assumptions C03_invariant.
+Print Assumptions C03_a_registered_call_keeps_its_number_to_itself.
